@@ -11,8 +11,8 @@ EXTENDS Integers, Sequences, FiniteSets, TLC
 None == 1000           \* Python None in index / slice / return positions (an int so JSON can carry it)
 
 \* ---- items and validators -------------------------------------------------
-Valid     == {1, 2, 3, 4}
-Coercible == {11, 12, 13}      \* 11 |-> 1 ... : e.g. "1" under an int-casting validator
+Valid     == (1..9) \cup (20..98)    \* ordinary items (the model checker uses 1..4; recorded test-suite traces up to 88)
+Coercible == 11..19      \* 11 |-> 1 ... : e.g. "1" under an int-casting validator
 Invalid   == {99}
 AnyItem   == Valid \cup Coercible \cup Invalid
 VModes    == {"id", "coerce", "strict"}
